@@ -31,5 +31,6 @@ func C06(c *core.Ctx) {
 			})
 		}
 	}
+	runCompositions(c, rules, "Length", "pattern")
 	c.Floor("families", c.Counts["members"], 48, "family members")
 }
